@@ -277,6 +277,10 @@ func (w *verifWorld) snapshot(n *verifNode) map[string]string {
 	la, err := n.settings.LastAnnouncement()
 	out["settings.ConfigManager.LastAnnouncement"] = verifJSON(la) + fmt.Sprint(err)
 	out["settings.ConfigManager.AcceptingContracts"] = fmt.Sprint(n.settings.AcceptingContracts())
+	// the EFFECTIVE bandwidth limits (what the RHP listeners are throttled with), not only the stored numbers
+	if in, eg := n.settings.RHPBandwidthLimiters(); in != nil && eg != nil {
+		out["settings.ConfigManager.RHPBandwidthLimiters"] = fmt.Sprintf("ingress=%v egress=%v", in.Limit(), eg.Limit())
+	}
 	r4 := n.settings.RHP4Settings()
 	out["settings.ConfigManager.RHP4Settings"] = verifJSON(r4)
 	r2, err := n.settings.RHP2Settings()
